@@ -120,8 +120,8 @@ class P(Problem):
     def Calculate(self, point, fv):
         self.log.append([float(v) for v in point.floatVariables]); fv.value = sum((v - 0.3) ** 2 for v in point.floatVariables); return fv
 bad = 0
-for m in range(2, 13):
-    p = P(); s = Solver(p, SolverParameters(r=2.5, eps=1e-9, itersLimit=12, evolventDensity=m)); s.Solve()
+for m, eps in [(m, e) for m in range(2, 13) for e in (1e-9, 0.3)]:
+    p = P(); s = Solver(p, SolverParameters(r=2.5, eps=eps, itersLimit=12, evolventDensity=m)); s.Solve()
     if s.evolvent.evolventDensity != m:
         print('REPRODUCED C20 CONFIG: N=%%d evolventDensity=%%d but the solver\'s evolvent has density %%r' %% (N, m, s.evolvent.evolventDensity)); bad = 1
     for y in p.log:
